@@ -1,0 +1,359 @@
+//! Verification hooks. This module only exists when the crate is built with
+//! `--cfg lbfs_torrent_bootstrap_verif`; without the flag none of it is compiled and the crate is unchanged.
+//!
+//! * `fs`    — drop-in facade for the `std::fs` items the tool uses. Every call is numbered and logged, can be
+//!             made to fail with an `io::Error` (fault injection) and the process can be stopped in the middle of
+//!             the k-th mutating operation (crash emulation). With no controller installed it is a pass-through.
+//! * `trace` — observation points for choices that depend on hash-map iteration order.
+//! * `ctl`   — the controller the harness installs.
+
+pub mod ctl {
+    use std::cell::Cell;
+    use std::sync::Mutex;
+
+    #[derive(Default)]
+    pub struct Config {
+        /// indices (in the sequence of logged file operations) that fail with an injected error
+        pub faults: Vec<usize>,
+        /// stop the process when the k-th mutating operation (0-based) is reached; for a write, after the
+        /// given number of bytes; for create_dir_all, after that many directories
+        pub crash: Option<(usize, usize)>,
+    }
+
+    pub struct State {
+        pub config: Config,
+        pub log: Vec<String>,
+        pub ops: usize,
+        pub mutating: usize,
+    }
+
+    pub static STATE: Mutex<Option<State>> = Mutex::new(None);
+
+    thread_local! {
+        pub static WORKER: Cell<usize> = const { Cell::new(0) };
+    }
+
+    pub fn install(config: Config) {
+        *STATE.lock().unwrap_or_else(|e| e.into_inner()) = Some(State { config, log: Vec::new(), ops: 0, mutating: 0 });
+    }
+
+    /// removes the controller and returns its log
+    pub fn uninstall() -> Vec<String> {
+        match STATE.lock().unwrap_or_else(|e| e.into_inner()).take() {
+            Some(state) => state.log,
+            None => Vec::new(),
+        }
+    }
+
+    pub fn worker() -> usize {
+        WORKER.with(|w| w.get())
+    }
+
+    pub fn hex(bytes: &[u8]) -> String {
+        if bytes.is_empty() {
+            return "-".to_string();
+        }
+        let mut out = String::with_capacity(bytes.len() * 2);
+        for byte in bytes {
+            out.push(char::from_digit((*byte >> 4) as u32, 16).unwrap());
+            out.push(char::from_digit((*byte & 15) as u32, 16).unwrap());
+        }
+        out
+    }
+
+    /// emulated crash: hand the log to the parent process, then die without unwinding
+    pub fn crash(state: &mut State, index: usize, bytes: usize) -> ! {
+        use std::io::Write;
+        state.log.push(format!("crash {} {}", index, bytes));
+        let stdout = std::io::stdout();
+        let mut out = stdout.lock();
+        for line in &state.log {
+            let _ = writeln!(out, "LOG {}", line);
+        }
+        let _ = out.flush();
+        std::process::abort();
+    }
+}
+
+pub mod fs {
+    use super::ctl;
+    use std::io::{self, Read, Seek, SeekFrom, Write};
+    use std::os::unix::ffi::OsStrExt;
+    use std::path::{Path, PathBuf};
+
+    fn injected() -> io::Error {
+        io::Error::new(io::ErrorKind::Other, "injected fault")
+    }
+
+    pub enum Kind<'a> {
+        Stat,
+        OpenR,
+        OpenRW,
+        OpenC,
+        Mkdirs,
+        SetLen(u64),
+        Seek(u64),
+        Read,
+        Write(u64, &'a [u8]),
+    }
+
+    impl Kind<'_> {
+        fn mutating(&self) -> bool {
+            matches!(self, Kind::OpenC | Kind::Mkdirs | Kind::SetLen(_) | Kind::Write(_, _))
+        }
+
+        fn render(&self, path: &Path) -> String {
+            let p = ctl::hex(path.as_os_str().as_bytes());
+            match self {
+                Kind::Stat => format!("stat {}", p),
+                Kind::OpenR => format!("openr {}", p),
+                Kind::OpenRW => format!("openrw {}", p),
+                Kind::OpenC => format!("openc {}", p),
+                Kind::Mkdirs => format!("mkdirs {}", p),
+                Kind::SetLen(n) => format!("setlen {} {}", p, n),
+                Kind::Seek(n) => format!("seek {} {}", p, n),
+                Kind::Read => format!("read {}", p),
+                Kind::Write(off, data) => format!("write {} {} {}", p, off, ctl::hex(data)),
+            }
+        }
+    }
+
+    /// Runs one file operation under the controller: numbering, fault injection, crash point, logging.
+    /// `partial` performs the part of a mutating operation that precedes a crash inside it.
+    pub fn controlled<T>(
+        kind: Kind,
+        path: &Path,
+        action: impl FnOnce() -> io::Result<T>,
+        partial: impl FnOnce(usize),
+    ) -> io::Result<T> {
+        let mut guard = ctl::STATE.lock().unwrap_or_else(|e| e.into_inner());
+        let state = match guard.as_mut() {
+            Some(state) => state,
+            None => {
+                drop(guard);
+                return action();
+            }
+        };
+
+        let index = state.ops;
+        state.ops += 1;
+        let head = format!("op {} {}", ctl::worker(), kind.render(path));
+
+        if state.config.faults.contains(&index) {
+            state.log.push(format!("{} err", head));
+            return Err(injected());
+        }
+
+        if kind.mutating() {
+            let mutating_index = state.mutating;
+            state.mutating += 1;
+            if let Some((crash_index, crash_bytes)) = state.config.crash {
+                if crash_index == mutating_index {
+                    state.log.push(format!("{} cut", head));
+                    partial(crash_bytes);
+                    ctl::crash(state, crash_index, crash_bytes);
+                }
+            }
+        }
+
+        let result = action();
+        state.log.push(format!("{} {}", head, if result.is_ok() { "ok" } else { "err" }));
+        result
+    }
+
+    pub fn metadata<P: AsRef<Path>>(path: P) -> io::Result<std::fs::Metadata> {
+        let path = path.as_ref();
+        controlled(Kind::Stat, path, || std::fs::metadata(path), |_| ())
+    }
+
+    pub fn create_dir_all<P: AsRef<Path>>(path: P) -> io::Result<()> {
+        let path = path.as_ref();
+        controlled(Kind::Mkdirs, path, || std::fs::create_dir_all(path), |count| {
+            // create only the first `count` missing directories, outermost first
+            let mut missing: Vec<&Path> = path.ancestors().filter(|p| !p.as_os_str().is_empty() && !p.exists()).collect();
+            missing.reverse();
+            for directory in missing.into_iter().take(count) {
+                let _ = std::fs::create_dir(directory);
+            }
+        })
+    }
+
+    #[derive(Clone, Debug)]
+    pub struct OpenOptions {
+        inner: std::fs::OpenOptions,
+        write: bool,
+        create: bool,
+    }
+
+    impl OpenOptions {
+        pub fn new() -> OpenOptions {
+            OpenOptions { inner: std::fs::OpenOptions::new(), write: false, create: false }
+        }
+        pub fn read(&mut self, value: bool) -> &mut Self { self.inner.read(value); self }
+        pub fn write(&mut self, value: bool) -> &mut Self { self.inner.write(value); self.write = value; self }
+        pub fn truncate(&mut self, value: bool) -> &mut Self { self.inner.truncate(value); self }
+        pub fn create(&mut self, value: bool) -> &mut Self { self.inner.create(value); self.create = value; self }
+        pub fn create_new(&mut self, value: bool) -> &mut Self { self.inner.create_new(value); self }
+
+        pub fn open<P: AsRef<Path>>(&self, path: P) -> io::Result<File> {
+            let path = path.as_ref();
+            let kind = if self.write && self.create {
+                Kind::OpenC
+            } else if self.write {
+                Kind::OpenRW
+            } else {
+                Kind::OpenR
+            };
+            let inner = controlled(kind, path, || self.inner.open(path), |_| ())?;
+            Ok(File { inner, path: path.to_path_buf(), position: 0, fresh: true })
+        }
+    }
+
+    #[derive(Debug)]
+    pub struct File {
+        inner: std::fs::File,
+        path: PathBuf,
+        position: u64,
+        /// the next read is the first one after the open or a seek: it is the logged `read` operation
+        fresh: bool,
+    }
+
+    impl File {
+        pub fn open<P: AsRef<Path>>(path: P) -> io::Result<File> {
+            OpenOptions::new().read(true).open(path)
+        }
+
+        pub fn metadata(&self) -> io::Result<std::fs::Metadata> {
+            self.inner.metadata()
+        }
+
+        pub fn set_len(&self, size: u64) -> io::Result<()> {
+            controlled(Kind::SetLen(size), &self.path, || self.inner.set_len(size), |_| ())
+        }
+    }
+
+    impl Read for File {
+        fn read(&mut self, buf: &mut [u8]) -> io::Result<usize> {
+            if self.fresh {
+                self.fresh = false;
+                controlled(Kind::Read, &self.path, || Ok(()), |_| ())?;
+            }
+            self.inner.read(buf)
+        }
+    }
+
+    impl Seek for File {
+        fn seek(&mut self, pos: SeekFrom) -> io::Result<u64> {
+            let target = match pos {
+                SeekFrom::Start(n) => n,
+                _ => u64::MAX,
+            };
+            let inner = &mut self.inner;
+            let result = controlled(Kind::Seek(target), &self.path, || inner.seek(pos), |_| ())?;
+            self.position = result;
+            self.fresh = true;
+            Ok(result)
+        }
+    }
+
+    impl Write for File {
+        fn write(&mut self, buf: &[u8]) -> io::Result<usize> {
+            self.write_all(buf)?;
+            Ok(buf.len())
+        }
+
+        fn write_all(&mut self, buf: &[u8]) -> io::Result<()> {
+            let position = self.position;
+            let path = self.path.clone();
+            let result = {
+                let inner = std::cell::RefCell::new(&mut self.inner);
+                controlled(
+                    Kind::Write(position, buf),
+                    &path,
+                    || inner.borrow_mut().write_all(buf),
+                    |count| {
+                        let _ = inner.borrow_mut().write_all(&buf[..count.min(buf.len())]);
+                    },
+                )
+            };
+            if result.is_ok() {
+                self.position += buf.len() as u64;
+            }
+            result
+        }
+
+        fn flush(&mut self) -> io::Result<()> {
+            self.inner.flush()
+        }
+    }
+}
+
+pub mod trace {
+    use super::ctl;
+    use crate::finder::TorrentMetadataEntry;
+    use crate::orchestrator::OrchestrationPiece;
+    use std::os::unix::ffi::OsStrExt;
+
+    fn push(line: String) {
+        if let Some(state) = ctl::STATE.lock().unwrap_or_else(|e| e.into_inner()).as_mut() {
+            state.log.push(line);
+        }
+    }
+
+    /// candidate lists as `populate_metadata_searches` left them (their order depends on hash-map iteration)
+    pub fn searches(metadata: &[TorrentMetadataEntry]) {
+        for entry in metadata {
+            let mut line = format!(
+                "searches {} {} {} {}",
+                entry.id,
+                entry.is_padding_file as u8,
+                entry.file_length,
+                ctl::hex(entry.full_target.as_os_str().as_bytes())
+            );
+            match &entry.searches {
+                None => line.push_str(" none"),
+                Some(paths) => {
+                    line.push_str(&format!(" {}", paths.len()));
+                    for path in paths.iter() {
+                        line.push(' ');
+                        line.push_str(&ctl::hex(path.as_os_str().as_bytes()));
+                    }
+                }
+            }
+            push(line);
+        }
+    }
+
+    pub fn worker(thread_id: usize) {
+        ctl::WORKER.with(|w| w.set(thread_id));
+    }
+
+    pub fn solve_begin(piece: &OrchestrationPiece) {
+        let mut line = format!("solve {} begin {} {}", ctl::worker(), ctl::hex(&piece.hash), piece.files.len());
+        for file in &piece.files {
+            line.push_str(&format!(" {} {} {}", file.metadata.id, file.read_start_position, file.read_length));
+        }
+        push(line);
+    }
+
+    pub fn solve_end(result: &std::io::Result<bool>) {
+        let outcome = match result {
+            Ok(true) => "found",
+            Ok(false) => "notfound",
+            Err(_) => "fault",
+        };
+        push(format!("solve {} end {}", ctl::worker(), outcome));
+    }
+
+    /// the queues after a call to `balance`, as lists of (first entry id, first offset, number of segments)
+    pub fn balanced(queues: &[Vec<(usize, u64, usize)>]) {
+        let mut line = format!("balance {} {}", ctl::worker(), queues.len());
+        for queue in queues {
+            line.push_str(&format!(" {}", queue.len()));
+            for (id, offset, segments) in queue {
+                line.push_str(&format!(" {} {} {}", id, offset, segments));
+            }
+        }
+        push(line);
+    }
+}
